@@ -260,17 +260,29 @@ def r4_load_path(ctx, nf) -> None:
     m = df.methods.get("load")
     if m is None:
         ctx.broken("anchor vanished: DfBase.load")
-    lc = [x for x in calls_in(m) if u(x.func) == "ops.LoadConst"]
-    ok = len(lc) == 1 and len(lc[0].args) == 1 and u(lc[0].args[0]) == "const_op.val.type_()"
-    cop = [n for n in ast.walk(m) if isinstance(n, ast.Assign) and u(n.targets[0]) == "const_op"]
-    ok = ok and len(cop) == 1 and u(cop[0].value) == "self.hugr._get_typed_op(const, ops.Const)"
-    ctx.check(bool(ok), "C14.R4", "hugr.build.dfg.DfBase.load: LoadConst type", df.module.path, m.lineno,
+    from ..rulekit import unold
+    from ..tmpl import T, tfind
+    cparam = m.args.args[1].arg
+    ps = [p for p in ctx.paths("hugr.build.dfg.DfBase.load") if p.kind != "raise"]
+    ok_t = ok_w = bool(ps)
+    found = ""
+    for p in ps:
+        links = p.find_effect("self.hugr.add_link(E_a, E_b)")
+        if len(links) != 1 or p.kind != "return":
+            ok_t = ok_w = False
+            continue
+        a, b = unold(links[0][2]["E_a"]), unold(links[0][2]["E_b"])
+        found = f"add_link({a}, {b})"
+        # the constant node: the argument itself, or the node add_const made for a value argument
+        cn = a[: -len(".out_port()")] if a.endswith(".out_port()") else (a[: -len(".out(0)")] if a.endswith(".out(0)") else None)
+        ok_w = ok_w and cn is not None and (cn == cparam or cn.startswith(f"self.add_const({cparam}")) and b == unold(p.value) + ".inp(0)"
+        lcs = [e for _, e in tfind(ast.parse(b, mode="eval").body, T("ops.LoadConst(E_ty)"))]
+        ok_t = ok_t and len(lcs) >= 1 and all(e["E_ty"] == f"self.hugr._get_typed_op({cn}, ops.Const).val.type_()" for e in lcs)
+    ctx.check(bool(ok_t), "C14.R4", "hugr.build.dfg.DfBase.load: LoadConst type", df.module.path, m.lineno,
               "the LoadConstant built for a constant must produce the type the constant reports (ops.LoadConst(const_op.val.type_()))", m,
-              found=u(lc[0]) if lc else "")
-    links = [x for x in calls_in(m, "add_link")]
-    ok = len(links) == 1 and u(links[0].args[0]) in ("const.out_port()", "const.out(0)") and u(links[0].args[1]) == "load.inp(0)"
-    ctx.check(ok, "C14.R4", "hugr.build.dfg.DfBase.load: wiring", df.module.path, m.lineno,
-              "the constant's static output 0 must be linked to the load's static input 0", m, found=u(links[0]) if links else "")
+              found=found[:300])
+    ctx.check(bool(ok_w), "C14.R4", "hugr.build.dfg.DfBase.load: wiring", df.module.path, m.lineno,
+              "the constant's static output 0 must be linked to the load's static input 0", m, found=found[:300])
     cc = ctx.program.cls("hugr.ops.Const")
     paths = nf.paths(cc, "port_kind")
     rets = [t for g, o, t, n, e in paths if o == "return"]
